@@ -108,9 +108,9 @@ impl From<&Hsla> for Hwba {
 
 // Find which of three numbers are largest and smallest
 fn max_min_largest(a: f64, b: f64, c: f64) -> (f64, f64, u32) {
-    let (max, largest) = if a > b && a > c {
+    let (max, largest) = if a >= b && a >= c {
         (a, 0)
-    } else if b > a && b > c {
+    } else if b >= c {
         (b, 1)
     } else {
         (c, 2)
